@@ -29,6 +29,7 @@ type Ledger struct {
 	FailAt            map[int]bool
 	ReadFail          map[atree.SlabID]bool
 	ReadFailHits      int // number of reads that failed because of ReadFail
+	LastReadFail      atree.SlabID // the last register whose read failed because of ReadFail
 	AllocFail         bool // GenerateSlabID fails (and allocates nothing)
 	Jitter            bool
 	n                 int
@@ -94,6 +95,7 @@ func (l *Ledger) Retrieve(id atree.SlabID) ([]byte, bool, error) {
 	l.jitter()
 	if l.ReadFail[id] {
 		l.ReadFailHits++
+		l.LastReadFail = id
 		return nil, false, ErrInjected
 	}
 	d, ok := l.Seg[id]
